@@ -58,15 +58,17 @@ MANIFEST = dict(
          "Plus the line-level theorems (column<->x for every key count / every integer x, code<->value, truncation bounds and "
          "idempotence, metadata cut at the first colon) and exhaustive live tables (x->column for 18 key counts x 528 x values, "
          "column->x, whitespace set, sample-set names). The model is tied to the code on every run by in-Coq correspondence in "
-         "both directions with the reference semantics evaluated on the implementation's outputs. The two defects found earlier "
-         "(second colon in metadata values; keys=10 x=256) are fixed in the repo (ac204a5, 36d1b4c); their inputs stay in corpus/C01.",
+         "both directions with the reference semantics evaluated on the implementation's outputs. The three defects found "
+         "(second colon in metadata values; keys=10 x=256; Title/Artist broken over two lines when unidecode yields a line feed, "
+         "found by the write proof) are fixed in the repo (ac204a5, 36d1b4c, fde22cd); their inputs stay in corpus/C01 and the "
+         "old writer is kept as osu_write_OLD with C01_write_title_linefeed_OLD_refuted / _current.",
     note="Trusted: Coq kernel+VM, harness generator/serialiser, gen_tables translator, unidecode and float printing as oracles "
          "(tokens compared by value; in the theorems they are universally quantified parameters with stated hypotheses); binary64 "
          "rounding of float()/divisions measured (rounded stream, rel 1e-9) not proved. Reported, not defects of the dialect proper: "
          "outside strict_read_text the reader deviates from the format (e.g. a timing line whose uninherited field is ' 1' or '01' "
-         "is silently dropped; an attribute line in a foreign section is taken; Tags 'a \\t b' yields an empty tag); a Title / "
-         "Artist containing U+2028/U+2029 is transliterated by unidecode to a line feed and breaks the written file "
-         "(C01_write_title_linefeed_refuted) - excluded by write_domain. No known findings inside the domains.",
+         "is silently dropped; an attribute line in a foreign section is taken; Tags 'a \\t b' yields an empty tag); documented guards. "
+         "write_domain demands nothing of the transliterations (the writer replaces their line feeds by blanks since fde22cd). "
+         "No known findings inside the domains.",
     technique="Coq proof over executable model + reference interpreter evaluated by vm_compute on implementation outputs",
     design="4/C01")
 
